@@ -109,7 +109,7 @@ pub fn mutate_last_state_proof(
             .build()
     };
     let last = honest.last_header();
-    let op = rng.below(25);
+    let op = rng.below(27);
     let out = match op {
         0 => {
             let i = pick_idx(rng)?;
@@ -329,6 +329,19 @@ pub fn mutate_last_state_proof(
             p2.last_n.remove(i);
             p2.last_n.insert(0, parts.last_n[0] - 1);
             (server::encode_proof(chain, &p2), "consistent-proof-lastn-hole".to_string())
+        }
+        25 | 26 => {
+            // a consistent proof (regenerated for the smaller leaf set) that keeps the samples and only the tail of the
+            // last-N section: the blocks from the difficulty boundary up to that tail are missing. The tail lengths tried
+            // are the configurable last-N values, so the cut lands exactly on the requested count in some of the runs.
+            let cands: Vec<usize> = [1usize, 2, 3, 5, 10, 25, 100].iter().cloned().filter(|k| *k < parts.last_n.len()).collect();
+            if cands.is_empty() || parts.boundary.is_none() {
+                return None;
+            }
+            let keep = *rng.pick(&cands);
+            let mut p2 = parts.clone();
+            p2.last_n = parts.last_n[parts.last_n.len() - keep..].to_vec();
+            (server::encode_proof(chain, &p2), format!("consistent-proof-boundary-region-cut|{}", if parts.sampled.is_empty() { "no-samples" } else { "with-samples" }))
         }
         20 => {
             // last header altered
